@@ -149,6 +149,14 @@ def run(chk, repo):
         state.update(itemv)
         if "steps" in sim:
             state["steps"] = RF.sym("STEPS")
+        # loop-invariant locals of the prologue (a batch increment computed once ...) in terms of the generic state
+        for st_ in pre:
+            if isinstance(st_, ast.Assign) and len(st_.targets) == 1 and isinstance(st_.targets[0], ast.Name) \
+                    and st_.targets[0].id not in state and st_.targets[0].id not in ("c", "n", "lastp", "steps"):
+                try:
+                    state[st_.targets[0].id] = Evaluator(state, mod_identity=True).ev(st_.value)
+                except Inconclusive:
+                    pass
         Lpre = state["c"] + state["n"] * stepsym - state["lastp"]
         outcomes = _simulate(loop.body, state, mod)
         chk.decide(bool(outcomes), "C19.modulo", W("modulo_counter"), "%s: one value per iteration" % label,
